@@ -67,7 +67,9 @@ pub fn extract_field_content(input: &str, tag: &str) -> Option<(String, usize)> 
         + raw_content_len
         + if has_trailing_newline { 1 } else { 0 };
 
-    Some((content.to_string(), consumed))
+    // Field parsers split multi-line values on '\n' only: hand them LF line endings so
+    // that CRLF-delimited input does not leave a '\r' at the end of every line but the last
+    Some((content.replace("\r\n", "\n"), consumed))
 }
 
 /// Find the boundary of the next field
